@@ -7,6 +7,9 @@
 #include "../../sim/mpi/simmpi.h"
 #include "ptg_common.h"
 #include "ptg_ref.h"
+#include "parsec/parsec_config.h"
+#include "parsec/runtime.h"
+#include "parsec/remote_dep.h"
 #include <pthread.h>
 #include <stdlib.h>
 #include <string.h>
@@ -164,6 +167,12 @@ static int tp_slot_is_ptg[PTG_MAX_TP];
 static int tp_epoch[PTG_MAX_TP], tp_member_of[PTG_MAX_TP], epoch_wait_action[16], NEPOCH;
 
 static int want(int p) { return PROP == p; }
+static int cb_count_rank[16][PTG_MAX_TP];
+static int ut_delivered[16], ut_sent[16];                 /* user-trigger notifications per destination / source */
+static unsigned short ACT[MAXI][16];                      /* activations received per (producer instance, destination rank) */
+static int act_garbage;
+static const char *inst_name(int i, char *buf, size_t n);
+
 
 void ptgh_event(int rank, int kind, long a, long b)
 {
@@ -172,6 +181,19 @@ void ptgh_event(int rank, int kind, long a, long b)
     if (kind == PE_ACTION_BEGIN && a < 128) act_begin[rank][a] = sim_stamp();
     if (kind == PE_ACTION_END && a < 128) act_end[rank][a] = sim_stamp();
     if (kind == PE_COMPLETE_CB && a >= 0 && a < PTG_MAX_TP && rank == 0) { cb_count[a]++; cb_stamp[a] = sim_stamp(); }
+    if (kind == PE_COMPLETE_CB && a >= 0 && a < PTG_MAX_TP && rank >= 0 && rank < 16) {
+        cb_count_rank[rank][a]++;
+        if (want(11) && tp_slot_is_ptg[a]) {
+            /* C11 safety: when ANY rank declares termination, no task of the taskpool is pending anywhere
+             * and no application message is in flight */
+            char nm[96];
+            for (int i = 0; i < NINST && !RES->vclass; i++)
+                if (!OBS[a][i].end) hx_fail(RES, "terminated-with-task-pending", "rank %d declared taskpool %d terminated while %s had not %s", rank, (int)a, inst_name(i, nm, sizeof(nm)), OBS[a][i].count ? "finished" : "run");
+            int fl = 0;
+            for (int t = 0; t < 64; t++) if (t != PARSEC_TERMDET_FOURCOUNTER_MSG_TAG && t != PARSEC_TERMDET_USER_TRIGGER_MSG_TAG) fl += simmpi_inflight_tag(-1, t);
+            if (fl && !RES->vclass) hx_fail(RES, "terminated-with-message-in-flight", "rank %d declared taskpool %d terminated while %d application message(s) were still in flight", rank, (int)a, fl);
+        }
+    }
     if (getenv("VERIF_MPI_TRACE")) fprintf(stderr, "[ptg t=%llu] rank %d event %d a=%ld b=%ld\n", (unsigned long long)sim_now(), rank, kind, a, b);
 }
 
@@ -205,7 +227,7 @@ int ptgh_body(int rank, int tp, int cls, const int *P, void **data)
         dep_t *d = &DEPS[INST[i].in0 + k];
         if (d->kind == PTG_K_TASK) {
             obs_t *po = &OBS[tp][d->inst];
-            if ((want(2) || want(5)) && !(po->end && po->end < o->begin)) {
+            if ((want(2) || want(5) || want(11) || want(13)) && !(po->end && po->end < o->begin)) {
                 char n2[96];
                 hx_fail(RES, "ran-before-predecessor", "taskpool %d: %s began (stamp %llu) before its predecessor %s on flow %s finished (%s)", tp, inst_name(i, nm, sizeof(nm)),
                         (unsigned long long)o->begin, inst_name(d->inst, n2, sizeof(n2)), c->fnames[d->flow], po->end ? "it ended later" : "it has not ended");
@@ -214,14 +236,14 @@ int ptgh_body(int rank, int tp, int cls, const int *P, void **data)
         if (c->kinds[d->flow] == PTG_CTL) continue;
         int64_t *p = data[d->flow];
         if (d->kind == PTG_K_NULL) {
-            if ((want(2) || want(5)) && p != NULL) hx_fail(RES, "wrong-input", "taskpool %d: %s flow %s should be NULL", tp, inst_name(i, nm, sizeof(nm)), c->fnames[d->flow]);
+            if ((want(2) || want(5) || want(11) || want(13)) && p != NULL) hx_fail(RES, "wrong-input", "taskpool %d: %s flow %s should be NULL", tp, inst_name(i, nm, sizeof(nm)), c->fnames[d->flow]);
             continue;
         }
-        if (!p) { if (want(2) || want(5)) hx_fail(RES, "null-data", "taskpool %d: %s flow %s has a NULL data pointer", tp, inst_name(i, nm, sizeof(nm)), c->fnames[d->flow]); continue; }
+        if (!p) { if (want(2) || want(5) || want(11) || want(13)) hx_fail(RES, "null-data", "taskpool %d: %s flow %s has a NULL data pointer", tp, inst_name(i, nm, sizeof(nm)), c->fnames[d->flow]); continue; }
         if (d->kind == PTG_K_NEW) continue;
         int known = 0;
         int64_t want_v = expected_in(tp, i, d->flow, &known, 0);
-        if (known && (want(2) || want(5))) {
+        if (known && (want(2) || want(5) || want(11) || want(13))) {
             for (int j = 0; j < SH.nelems; j++) if (p[j] != want_v + j) {
                 hx_fail(RES, "wrong-input", "taskpool %d: %s flow %s element %d is %lld, the program names data with value %lld", tp, inst_name(i, nm, sizeof(nm)), c->fnames[d->flow], j,
                         (long long)p[j], (long long)(want_v + j));
@@ -329,7 +351,7 @@ static void gen(hx_plan_t *p, hx_rng_t *r)
     for (int g = 0; g < PTG_REF.nglobals; g++) {
         char k[8]; snprintf(k, sizeof(k), "G%d", g);
         const char *nm = PTG_REF.gnames[g];
-        long v = !strcmp(nm, "N") ? hx_range(r, 1, 6) : !strcmp(nm, "M") ? hx_range(r, 1, 4) : hx_range(r, 1, 3);
+        long v = !strcmp(nm, "N") ? hx_range(r, 1, 6) : !strcmp(nm, "M") ? hx_range(r, 1, 4) : !strcmp(nm, "R") ? hx_range(r, 0, 15) : hx_range(r, 1, 3);
         hx_set_knob(p, k, v);
     }
     static const int su[] = {0, 0, 1, 2, 7};
@@ -402,6 +424,32 @@ static void init(void)
     }
 }
 
+/* observation tap on the simulated network (world stopped) */
+static void net_tap(int ev, int src, int dst, int comm_id, int tag, const void *data, size_t nbytes, uint64_t seq)
+{
+    (void)comm_id; (void)seq;
+    if (tag == PARSEC_TERMDET_USER_TRIGGER_MSG_TAG) {
+        if (ev == SIMMPI_EV_DELIVER && dst >= 0 && dst < 16) ut_delivered[dst]++;
+        if (ev == SIMMPI_EV_SEND && src >= 0 && src < 16) ut_sent[src]++;
+    }
+    if (tag == PARSEC_CE_REMOTE_DEP_ACTIVATE_TAG && ev == SIMMPI_EV_DELIVER && data && dst >= 0 && dst < 16) {
+        /* a sequence of [remote_dep_wire_activate_t][length bytes of short data] */
+        size_t pos = 0;
+        while (pos + sizeof(remote_dep_wire_activate_t) <= nbytes) {
+            remote_dep_wire_activate_t h;
+            memcpy(&h, (const char *)data + pos, sizeof(h));
+            pos += sizeof(h) + h.length;
+            int cls = h.task_class_id;
+            if (cls < 0 || cls >= PTG_REF.nclasses) { act_garbage++; break; }
+            int P[PTG_MAX_PARAMS] = {0};
+            for (int k = 0; k < PTG_REF.classes[cls].nparams; k++) P[k] = h.locals[PTG_REF.classes[cls].param_local_idx[k]].value;
+            int i = find_inst(cls, P);
+            if (i < 0) { act_garbage++; continue; }
+            ACT[i][dst]++;
+        }
+    }
+}
+
 static void *rank_tramp(void *a)
 {
     ptg_rank_arg_t *ra = a;
@@ -454,6 +502,12 @@ static void run(const hx_plan_t *p, hx_result_t *res)
     cfg.testsome_lag_max = 3;
     cfg.late_send_pct = (int)hx_knob(p, "net_late", 0);
     simmpi_reset(SH.nranks, hx_current_seed(), &cfg);
+    memset(cb_count_rank, 0, sizeof(cb_count_rank));
+    memset(ut_delivered, 0, sizeof(ut_delivered));
+    memset(ut_sent, 0, sizeof(ut_sent));
+    memset(ACT, 0, sizeof(ACT));
+    act_garbage = 0;
+    simmpi_set_tap(net_tap);
     pthread_t pt[16];
     ptg_rank_arg_t ra[16];
     for (int k = 0; k < SH.nranks; k++) { ra[k].sh = &SH; ra[k].rank = k; pthread_create(&pt[k], NULL, rank_tramp, &ra[k]); }
@@ -471,7 +525,7 @@ static void run(const hx_plan_t *p, hx_result_t *res)
             hx_hash(res, ((uint64_t)i << 32) ^ (uint64_t)o->rank ^ (o->begin << 8) ^ ((uint64_t)t << 56));
         }
     }
-    if ((want(2) || want(5)) && NTP == 1 && !res->vclass) {
+    if ((want(2) || want(5) || want(11) || want(13)) && NTP == 1 && !res->vclass) {
         /* final collection contents for tiles with exactly one write-back dependency */
         int wb_inst[PTG_NTILES], wb_flow[PTG_NTILES], wb_n[PTG_NTILES];
         memset(wb_n, 0, sizeof(wb_n));
@@ -488,6 +542,33 @@ static void run(const hx_plan_t *p, hx_result_t *res)
                 hx_fail(res, "wrong-final", "A(%d) element %d is %lld at the end; %s writes back %lld", t, j, (long long)SH.final_[t][j], inst_name(wb_inst[t], nm, sizeof(nm)), (long long)(v + j));
                 break;
             }
+        }
+    }
+    if (want(11) && !res->vclass) {
+        for (int t = 0; t < PTG_MAX_TP && !res->vclass; t++) if (tp_slot_is_ptg[t] && tp_member_of[t] < 0)
+            for (int r = 0; r < SH.nranks && !res->vclass; r++)
+                if (cb_count_rank[r][t] != 1) hx_fail(res, "termination-count", "rank %d detected the termination of taskpool %d %d times", r, t, cb_count_rank[r][t]);
+    }
+    if (want(12) && !res->vclass) {
+        /* C12: the user trigger reaches every non-root rank exactly once and the root never; every rank terminates once */
+        int root = (SH.G[1] % PTG_NTILES) % SH.nranks;      /* program utt: FIN runs where A(R) lives */
+        for (int r = 0; r < SH.nranks && !res->vclass; r++) {
+            int want_n = r == root ? 0 : 1;
+            if (ut_delivered[r] != want_n) hx_fail(res, "trigger-delivery-count", "rank %d received %d termination notifications (root is rank %d of %d): expected %d", r, ut_delivered[r], root, SH.nranks, want_n);
+            else if (cb_count_rank[r][0] != 1) hx_fail(res, "termination-count", "rank %d terminated the taskpool %d times", r, cb_count_rank[r][0]);
+        }
+    }
+    if (want(13) && !res->vclass && NTP == 1) {
+        /* C13: per (producer instance, destination rank) exactly one activation iff a successor lives there */
+        if (act_garbage) hx_fail(res, "garbage-activation", "%d activation headers did not decode to a task instance of the program", act_garbage);
+        for (int i = 0; i < NINST && !res->vclass; i++) {
+            int need[16] = {0};
+            int me = INST[i].aff % SH.nranks;
+            for (int k = 0; k < INST[i].nout; k++) { dep_t *d = &DEPS[INST[i].out0 + k]; if (d->kind == PTG_K_TASK) { int r = INST[d->inst].aff % SH.nranks; if (r != me) need[r] = 1; } }
+            for (int r = 0; r < SH.nranks && !res->vclass; r++)
+                if (ACT[i][r] != need[r])
+                    hx_fail(res, ACT[i][r] > need[r] ? "duplicate-activation" : "missing-activation", "rank %d received %d activation(s) of %s (which ran on rank %d); its successors on that rank call for %d",
+                            r, ACT[i][r], inst_name(i, nm, sizeof(nm)), me, need[r]);
         }
     }
     if ((want(15) || want(6)) && !res->vclass) {
